@@ -251,7 +251,7 @@ def _limit_memory():
     try:
         import resource
 
-        lim = int(os.environ.get("VERIF_WORKER_MEM_GB", "3")) << 30
+        lim = int(os.environ.get("VERIF_WORKER_MEM_GB", "8")) << 30
         resource.setrlimit(resource.RLIMIT_AS, (lim, lim))
     except Exception:  # noqa: BLE001 - best effort
         pass
